@@ -72,7 +72,7 @@ def tgt_repr(t, spec, tree):
 
 
 ERR_CLASS = {'new': 'PlantedError', 'same': 'PlantedError', 'copy': 'PlantedError', 'fail': 'PlantedError', 'coalskip': 'CoalesceError', 'smiss': 'PathAccessError',
-             'coal': 'CoalesceError', 'switch': 'MatchError', 'not': 'GlomError', 'mdict': 'MatchError'}
+             'coal': 'CoalesceError', 'switch': 'MatchError', 'not': 'MatchError', 'mdict': 'MatchError'}
 
 
 def expected_projection(st, spec):
